@@ -9,6 +9,7 @@ ops (the scenario alphabet):
 pkts: "hello:MN" (M: major ok, N: name ok) "connect:I" "discreq" "discresp" "pingreq" "other" "bad" "garbage"
 """
 from __future__ import annotations
+import common
 
 import asyncio
 from asyncio import tasks
@@ -73,7 +74,7 @@ class Bench:
                                   noise_psk=("QRTIErOb/fcE9Ukd/5qA3RGYMn0Y+p06U58SCtOXvPc=" if noise else None),
                                   expected_name=EXPECTED)
         self.stops = []
-        self.conn = ObservedConnection(params, lambda e: self.stops.append(e), False, None)
+        self.conn = ObservedConnection(params, lambda e: self.stops.append(e), common.debug_flip(), None)
         self.deliv = 0
         self.conn.add_message_callback(self._on_state, (pb.SensorStateResponse,))
         self.tasks = {}
